@@ -1,6 +1,6 @@
 CONSTANTS NT = 2 NTh = 2 NI = 3 ReuseIdents = FALSE Deviations = {} MaxOps = 3 Apis = {"threading", "lowlevel"}
           NPre = 1 Names = {1, 3} IgnNames = {3} DummyIgn = {FALSE} MaxX = 2
-          KeepHist = TRUE RenameSame = TRUE
+          KeepHist = TRUE RenameSame = TRUE NHook = 0
 SPECIFICATION Spec
 INVARIANT Schedule
 CHECK_DEADLOCK FALSE
